@@ -60,6 +60,7 @@ class Run:
         self.inconclusive = None
         self.stage_info = []
         self.collected = {}
+        self.notes = []
 
     # ---------------------------------------------------------------- build
     def build(self):
@@ -81,6 +82,15 @@ class Run:
                 return False
             self.bins[pkg] = b
         self.bin = self.bins[self.spec["pkg"]]
+        # -race builds (thorough-tier perturbation stages)
+        for st in self.spec["stages"]:
+            if st.get("race") and not (st.get("thorough_only") and self.tier != "thorough"):
+                pkg = st.get("pkg") or self.spec["pkg"]
+                b = os.path.join(self.build_dir, "race.test")
+                cmd = ["go", "test", "-c", "-race", "-tags", "verif", "-modfile", self.modfile, "-o", b, pkg]
+                p = subprocess.run(cmd, cwd=VERIF, env=goenv(), capture_output=True, text=True)
+                if p.returncode == 0 and os.path.exists(b):
+                    self.bins[(pkg, "race")] = b
         self.vmerge = os.path.join(VERIF, ".build", "vmerge")
         if not os.path.exists(self.vmerge):
             subprocess.run(["go", "build", "-modfile", self.modfile, "-o", self.vmerge, "./tools/vmerge"], cwd=VERIF, env=goenv())
@@ -111,6 +121,9 @@ class Run:
         os.makedirs(env["VERIF_REPLAY_OUT"], exist_ok=True)
         if extra_env:
             env.update(extra_env)
+        if binary is None and stage.get("race"):
+            binary = self.bins.get((stage.get("pkg") or self.spec["pkg"], "race"))
+            env["GORACE"] = "halt_on_error=0"
         if binary is None and stage.get("pkg"):
             binary = self.bins[stage["pkg"]]
         args = [binary or self.bin, "-test.run", stage["run"], "-test.v", "-test.count=1"] + extra_args
@@ -196,6 +209,10 @@ class Run:
                 self.inconclusive = "stage %s shard %d: go test deadline" % (stage["name"], pr["i"])
             elif kind == "fuzz" and re.search(r"Failing input written to|failure while testing seed corpus", text):
                 self.save_violation(stage, pr, text, "fuzz-crasher")
+            elif stage.get("ignore_unclassified"):
+                # e.g. data-race reports of the -race perturbation stage: logged, never a verdict
+                races = len(re.findall(r"WARNING: DATA RACE", text))
+                self.notes.append("stage %s shard %d: exit %s without a property violation (%d data race reports, logged only)" % (stage["name"], pr["i"], rc, races))
             elif re.search(r"^(--- FAIL|FAIL|panic:)", text, re.M):
                 # a failing test without our signature: still a failure of the check on this tree
                 self.save_violation(stage, pr, text, "unclassified-failure")
@@ -214,7 +231,7 @@ class Run:
         if kind == "rapid":
             info["requested_cases"] = checks * n
             info["passed_cases"] = passed
-            if passed < checks * n and not self.violations and not self.inconclusive:
+            if passed < checks * n and not self.violations and not self.inconclusive and not stage.get("ignore_unclassified"):
                 self.inconclusive = "stage %s: rapid ran %d of %d cases" % (stage["name"], passed, checks * n)
         self.stage_info.append(info)
 
@@ -300,6 +317,8 @@ class Run:
                   assumptions=assumptions, wall_s=round(time.time() - self.t0, 2), violations=len(self.violations))
         if self.inconclusive:
             ev["coverage"]["inconclusive"] = self.inconclusive
+        if self.notes:
+            ev["coverage"]["notes"] = self.notes
         os.makedirs(os.path.join(VERIF, "evidence"), exist_ok=True)
         path = os.path.join(VERIF, "evidence", self.pid + ".json")
         tmp = path + ".tmp"
